@@ -53,6 +53,12 @@ def _truth(rng, name, dim, mode):
         d["angles"] = [round(float(v), 3) for v in rng.uniform(-2, 2, size=dim * (dim - 1) // 2)]
     if name == "JBessel" and "opt" in d:
         d["opt"]["nu"] = round(max(d["opt"]["nu"], d["dim"] / 2 - 1 + 0.5), 3)
+    if mode != "latlon" and rng.random() < 0.3:
+        # a user-defined rescale factor (documented as a plain factor on the length scale), incl. values far from 1;
+        # the length scale is chosen so that the correlation length in lag units stays ordinary
+        resc = float(rng.choice([0.01, 0.3, 3.0, 100.0]))
+        d["rescale"] = resc
+        d["len_scale"] = round(float(d["len_scale"]) * resc / float(common.build_model({k: v for k, v in d.items() if k not in ("rescale",)}).rescale), 6)
     return d
 
 
